@@ -27,7 +27,7 @@ def handle(job):
           "Start": cfg["start"], "S": cfg["S"], "P": cfg["P"], "skip_rank_lt": 10 if cfg["skip"] else 0,
           "matrix_epsilon": 2.0 ** -10, "block_size": rep.get("block", 8), "merge": False,
           "compression_rank": rep.get("rank", 0), "fd": rep.get("fd", False), "reuse": rep.get("fd", False),
-          "eigh": rep.get("eigh", False), "diagonal_epsilon": job.get("diag_eps", 1e-10)}
+          "eigh": rep.get("eigh", False), "diagonal_epsilon": job.get("diag_eps", 1e-10), "clip": (0.5 if cfg.get("clip") else None)}
   if rep.get("fd"):
     base["P"] = base["S"]
   mism, worst = [], {"norm": 0.0, "cosine": 0.0, "graft_step": 0.0, "graft_closed_form": 0.0}
@@ -56,7 +56,7 @@ def handle(job):
         hist[i].append(g)
         # the graft step itself against its closed form (lr-free F, times the rate)
         gacc = [dy(x) for x in st["gacc"]]
-        F = refds.graft_step(cfg["graft"], g, hist[i], gacc[:t + 1], job.get("diag_eps", 1e-10))
+        F = refds.graft_step(cfg["graft"], g, hist[i], gacc[:t + 1], job.get("diag_eps", 1e-10), clip=(0.5 if cfg.get("clip") else None))
         nf = max(np.linalg.norm(F), 1e-30)
         dcf = float(np.linalg.norm(wi + lr * F) / (lr * nf)) if lr > 0 else 0.0
         worst["graft_closed_form"] = max(worst["graft_closed_form"], dcf)
